@@ -65,6 +65,22 @@ Example cv5_overflows_is : cv5_overflows [240; 239; 223; 191; 128] = true /\ cv5
   cv5_overflows [255; 255; 255; 255; 255; 0] = true /\ cv5_overflows [239; 255; 255; 255; 255] = false.
 Proof. vm_compute. repeat split; reflexivity. Qed.
 
+(* what a repair buys.  open2 pf = open2_f CV5_ADD_FORM pf, where the form of the addition is read from the source
+   (0 = `num += THR_4`).  With the addition written as wrapping_add (form 1) or checked_add + error (any other form)
+   open cannot panic in EITHER profile, for all inputs - the statement the property wants.  After such a repair the
+   translator gives CV5_ADD_FORM <> 0, open2_total_safe_refuted / open2_dev_panic_iff / open2_code_shape stop
+   compiling (intended) and `open2_total_safe` is this theorem at form := CV5_ADD_FORM. *)
+Theorem open2_total_safe_if_repaired : forall form, form <> 0 ->
+  forall pf max_off zd file, snd (open2_f form pf max_off zd file) <> O2panic.
+Proof. exact OpenStage_proofs.open2_total_safe_if_repaired_proof. Qed.
+Print Assumptions open2_total_safe_if_repaired.
+Example repaired_nonvacuous :
+  let zd := wit_zd [1; 2; 3] [240; 255; 255; 255; 255] in
+  let file := wit_file [1; 2; 3] 5 in
+  (forall pf, open2 pf max_u64 zd file = open2_f 0 pf max_u64 zd file) /\
+  snd (open2_f 1 Dev max_u64 zd file) = O2err e_no_nul /\ snd (open2_f 2 Dev max_u64 zd file) = O2err e_varint.
+Proof. cbv zeta. split; [intro pf; reflexivity|]. split; vm_compute; reflexivity. Qed.
+
 (* hence: safe in both profiles whenever the decoded sample-name stream is in the codec's domain *)
 Theorem open2_total_safe_partial : forall max_off zd file,
   (forall st, snd (open_pre max_off zd file) = O2ok st -> cv5_overflows (ps_stream st) = false) ->
